@@ -254,7 +254,7 @@ impl<R: Read> JsonParserUtils for Reader<R> {
 //@@ rewrite byte_literals
 //@@ endfn
 //@@ fn lex.read_array = src/json_parser.rs :: impl<R: Read> JsonParserUtils for Reader<R> :: fn read_array
-//@@ safety C01 C05 C06 C16 C20 C02
+//@@ safety C01 C05 C06 C16 C20 C02 C11
 //@@ rewrite try_io
 //@@ attr
 #[verifier::spinoff_prover]
@@ -326,7 +326,7 @@ impl<R: Read> JsonParserUtils for Reader<R> {
             }
 //@@ endfn
 //@@ fn lex.read_object = src/json_parser.rs :: impl<R: Read> JsonParserUtils for Reader<R> :: fn read_object
-//@@ safety C01 C05 C06 C16 C20 C02
+//@@ safety C01 C05 C06 C16 C20 C02 C11
 //@@ rewrite try_io
 //@@ attr
 #[verifier::spinoff_prover]
@@ -630,7 +630,7 @@ impl<R: Read> JsonParserUtils for Reader<R> {
 impl<R: Read> JsonParser for Reader<R> {
     open spec fn rv(&self) -> RView { rview(self) }
 //@@ fn lex.next_json_value = src/json_parser.rs :: impl<R: Read> JsonParser for Reader<R> :: fn next_json_value
-//@@ safety C01 C05 C06 C16 C20 C02
+//@@ safety C01 C05 C06 C16 C20 C02 C11
 //@@ rewrite try_io
 //@@ header
         decreases old(self).rv().pending.len(), 2int,
